@@ -47,13 +47,7 @@ theorem rowDense_eq_sum (n : Nat) (l : List (Nat × ℝ)) (hnd : (l.map (·.1)).
     rw [rowDense_snoc, vget_set, List.filter_append, List.map_append, List.sum_append, ← ih hnd1 hr1]
     by_cases h : cv.1 - 1 = j
     · have hcv : cv.1 = j + 1 := by omega
-      rw [if_pos ⟨h, by rw [rowDense_size]; exact hj⟩]
-      have hz : Dn.vget (rowDense n l) j = 0 := by
-        apply rowDense_zero
-        intro cv' hcv' e
-        have h1 := hr1 cv' hcv'
-        exact hdis cv'.1 (List.mem_map.2 ⟨cv', hcv', rfl⟩) cv.1 (by simp) (by omega)
-      rw [hz]
+      rw [if_pos ⟨h, by rw [rowDense_size]; exact hj⟩, h]
       simp [hcv]
     · have hcv : ¬ cv.1 = j + 1 := by omega
       rw [if_neg (fun h' => h h'.1)]
